@@ -190,6 +190,20 @@ class C03(Spec):
                 builder_q('C03.builder', ['PROP_C03'])]
 
 
+def errcopy_qs(prefix):
+    """hand-back of the per-call error message (copy between message buffers), for ANY message that
+    fits the per-call object's buffer: real FUNC(verify)/FUNC(generate) around contract stubs"""
+    out = []
+    for side, units, rb in (('verify', CORE_UNITS, ['jwt_parse', 'jwt_verify_complete']),
+                            ('generate', BUILDER_UNITS, ['jwt_head_setup', 'jwt_encode_str'])):
+        q = Query('%s.errcopy.%s' % (prefix, side), 'errcopy.c', units, defines=['VJ_MAXM=4'] + (['SIDE_CHECKER'] if side == 'verify' else []),
+                  unwind=14, checks='memsafe-noconv', budget=600, remove_bodies=rb,
+                  bounds={'message': 'any NUL-terminated text that fits the per-call object\'s own message buffer'})
+        q.unwindset = {'strlen.0': 600, 'strcpy.0': 600, 'terminated.0': 600, 'handed_back.0': 600, 'any_message.0': 600}
+        out.append(q)
+    return out
+
+
 class C06(Spec):
     functions = CORE_FUNCS
 
@@ -208,15 +222,7 @@ class C06(Spec):
         q.defines = [d for d in q.defines if d != 'VF_FREE_NOOP']
         q.mem_gb = 10
         qs.append(q)
-        # hand-back of the per-call error message (strcpy between message buffers), for ANY message
-        # that fits the per-call object's buffer: real FUNC(verify)/FUNC(generate) around contract stubs
-        for side, units, rb in (('verify', CORE_UNITS, ['jwt_parse', 'jwt_verify_complete']),
-                                ('generate', BUILDER_UNITS, ['jwt_head_setup', 'jwt_encode_str'])):
-            q = Query('C06.errcopy.%s' % side, 'errcopy.c', units, defines=['VJ_MAXM=4'] + (['SIDE_CHECKER'] if side == 'verify' else []),
-                      unwind=14, checks='memsafe-noconv', budget=600, remove_bodies=rb,
-                      bounds={'message': 'any NUL-terminated text that fits the per-call object\'s own message buffer'})
-            q.unwindset = {'strlen.0': 600, 'strcpy.0': 600, 'terminated.0': 600}
-            qs.append(q)
+        qs += errcopy_qs('C06')
         # the codec under the exact allocator (shared with C11) and both provider verify units
         qs.append(Query('C06.codec.decode.M16', 'codec.c', CODEC_UNITS, models=['alloc', 'jansson_model', 'env'],
                         defines=['SIDE_DECODE', 'M=16', 'VF_EXACT_END', 'VF_CAP=24'], unwind=22, checks='memsafe-noconv', bounds={'M': 16}))
@@ -229,7 +235,7 @@ class C06(Spec):
 class C14(Spec):
     functions = CORE_FUNCS
     def queries(self, tier, bld):
-        return [core_q('C14.verify.L12', ['PROP_C14', 'DIRTY_PRESTATE'], L=12),
+        return errcopy_qs('C14') + [core_q('C14.verify.L12', ['PROP_C14', 'DIRTY_PRESTATE'], L=12),
                 core_q('C14.verify.L16', ['PROP_C14', 'DIRTY_PRESTATE'], L=16, budget=1800, tiers=('thorough',)),
                 builder_q('C14.builder', ['PROP_C14', 'DIRTY_PRESTATE'])]
 
@@ -261,13 +267,23 @@ GATE_UNITS = ['libjwt/jwt.c', 'libjwt/jwt-memory.c', 'libjwt/base64.c']
 
 
 class C09(Spec):
-    functions = ['jwt_sign', 'jwt_verify_sig', '_verify_sha_hmac', '__check_hmac', '__check_key_bits', 'sign_sha_hmac',
+    functions = ['openssl_verify_sha_pem', 'openssl_sign_sha_pem', 'gnutls_verify_sha_pem', 'gnutls_sign_sha_pem', 'jwt_sign', 'jwt_verify_sig', '_verify_sha_hmac', '__check_hmac', '__check_key_bits', 'sign_sha_hmac',
                  'jwt_base64uri_decode', 'jwt_base64uri_encode', 'base64_decode', 'base64_encode', 'jwt_strcmp']
 
     def queries(self, tier, bld):
         b = {'alg': 'all 14 signing algorithms', 'kty': 'all 4', 'bits': '[0, 2^31)', 'sig text': 'all 4-char strings'}
-        return [Query('C09.gate.sign', 'gate.c', GATE_UNITS, defines=['SIDE_SIGN', 'VF_FREE_NOOP'], unwind=14, bounds=b),
-                Query('C09.gate.verify', 'gate.c', GATE_UNITS, defines=['SIDE_VERIFY', 'VF_FREE_NOOP'], unwind=14, bounds=b)]
+        qs = [Query('C09.gate.sign', 'gate.c', GATE_UNITS, defines=['SIDE_SIGN', 'VF_FREE_NOOP'], unwind=14, bounds=b),
+              Query('C09.gate.verify', 'gate.c', GATE_UNITS, defines=['SIDE_VERIFY', 'VF_FREE_NOOP'], unwind=14, bounds=b)]
+        # the part of the floor the providers enforce: key KIND for the algorithm (EdDSA only with
+        # Ed25519/Ed448, RS*/PS* only with RSA, ES* only with EC) and EC field size against the algorithm
+        qs += [ossl_q('C09.ossl.verify', ['SIDE_VERIFY', 'NOT_ES']),
+               ossl_q('C09.ossl.verify.ES256', ['SIDE_VERIFY', 'ONLY_ALG=JWT_ALG_ES256'], budget=900),
+               ossl_q('C09.ossl.sign', ['SIDE_SIGN']),
+               gnutls_q('C09.gnutls.verify', ['SIDE_VERIFY']),
+               gnutls_q('C09.gnutls.sign', ['SIDE_SIGN'])]
+        if tier != 'quick':
+            qs += [ossl_q('C09.ossl.verify.%s' % a, ['SIDE_VERIFY', 'ONLY_ALG=JWT_ALG_%s' % a], budget=900) for a in ('ES256K', 'ES384', 'ES512')]
+        return qs
 
 
 class C10(Spec):
@@ -322,7 +338,7 @@ OPS_UNITS = ['libjwt/jwt-crypto-ops.c', 'libjwt/jwt-memory.c']
 
 
 class C12(Spec):
-    functions = ['jwt_set_crypto_ops', 'jwt_set_crypto_ops_t', 'jwt_get_crypto_ops', 'jwt_get_crypto_ops_t', 'jwt_init', 'jwt_strcmp']
+    functions = ['jwt_set_crypto_ops', 'jwt_set_crypto_ops_t', 'jwt_get_crypto_ops', 'jwt_get_crypto_ops_t', 'jwt_init', 'jwt_strcmp', 'openssl_process_ec', 'openssl_process_eddsa', 'openssl_process_rsa', 'pctx_to_pem']
 
     def queries(self, tier, bld):
         m = ['alloc', 'jansson_model', 'env']
@@ -330,6 +346,8 @@ class C12(Spec):
         return [gnutls_q('C12.gnutls.verify', ['SIDE_VERIFY']), gnutls_q('C12.gnutls.sign', ['SIDE_SIGN']),
                 ossl_q('C12.ossl.verify', ['SIDE_VERIFY', 'NOT_ES']), ossl_q('C12.ossl.verify.ES256', ['SIDE_VERIFY', 'ONLY_ALG=JWT_ALG_ES256'], budget=900),
                 ossl_q('C12.ossl.sign', ['SIDE_SIGN']),
+                import_q('C12.import.ec', 'EC', 'PROP_C12'), import_q('C12.import.okp', 'OKP', 'PROP_C12'),
+                import_q('C12.import.rsa', 'RSA', 'PROP_C12', tiers=('thorough',)),
                 Query('C12.ops.name', 'ops.c', OPS_UNITS, models=m, defines=['SIDE_NAME'], unwind=12, bounds=b),
                 Query('C12.ops.id', 'ops.c', OPS_UNITS, models=m, defines=['SIDE_ID'], unwind=12, bounds=b),
                 Query('C12.ops.init', 'ops.c', OPS_UNITS, models=m, defines=['SIDE_INIT'], unwind=12, bounds=b)]
@@ -521,6 +539,12 @@ class C20(Spec):
             qs.append(q)
         opts = usage_options(os.path.join(REPO, 'tools/jwt-verify.c'))
         write_opts_header(os.path.join(bld.gen, 'c20_verify_opts.h'), opts)
+        # "... a JWK that the library imports without error": the importer accepts every well-formed
+        # member encoding key2jwk can emit - fixed-width EC members with leading zero octets included
+        qs.append(import_q('C20.import.ec', 'EC', 'PROP_C08'))
+        if tier != 'quick':
+            qs.append(import_q('C20.import.rsa', 'RSA', 'PROP_C08'))
+            qs.append(import_q('C20.import.okp', 'OKP', 'PROP_C08'))
         # key2jwk: fixed-width EC members (process_ec_key driven directly)
         k2j = bld.goto_unit('tools/key2jwk.c', extra=['-Dmain=tool_main'], suffix='tool')
         for bits in ((256,) if tier == 'quick' else (256, 384, 521)):
@@ -591,6 +615,7 @@ class C18(Spec):
         qs.append(ossl_q('C18.ossl.sign', ['SIDE_SIGN']))
         # provider units: their own static-lifetime objects are not written by sign / verify
         for prov, units, mk, hn in (('gnutls', GNUTLS_UNITS, gnutls_q, 'c18g_gen.h'), ('ossl', OSSL_UNITS, ossl_q, 'c18o_gen.h')):
+            units = units + ['libjwt/jwt-crypto-ops.c']      # owns jwt_ops and the provider table
             bld.build_units(units)
             overrides, listed = c18.instrument(bld, units, os.path.join(bld.gen, hn), prov)
             sides = [('verify', ['SIDE_VERIFY'] + (['NOT_ES'] if prov == 'ossl' else [])), ('sign', ['SIDE_SIGN'])]
@@ -598,6 +623,7 @@ class C18(Spec):
                 sides.append(('verify.ES256', ['SIDE_VERIFY', 'ONLY_ALG=JWT_ALG_ES256']))
             for side, defs in sides:
                 q = mk('C18.footprint.%s.%s' % (prov, side), defs + ['PROP_C18'])
+                q.units = list(units)
                 q.includes = [bld.gen]
                 q.unit_override = overrides
                 q.bounds['statics enumerated'] = [x['name'] + (' (local to %s)' % x['local_in'] if x['local_in'] else '') for x in listed]
@@ -715,8 +741,11 @@ _T = {
          'oct bytes and bits as the JWK states; foreign members never reach the provider.',
          'that EVP_PKEY_fromdata + PEM writing denote the same key, and the reported bit size, are OpenSSL\'s (oracles); member strings <= 5..12 bytes'),
  'C09': ('Model checking of jwt_sign / jwt_verify_sig with a symbolic (alg, key kind, bits) triple: the crypto oracle is reached IFF the '
-         'floor predicate of the property holds (both directions), failure sets the error. Exhaustive over all algorithms and all sizes < 2^31.',
-         'recorded sizes >= 2^31 bits excluded (size_t -> int narrowing in the gate); bits == 8*len for oct items is proved by the import harness'),
+         'floor predicate of the property holds (both directions), failure sets the error. Exhaustive over all algorithms and all sizes < 2^31. '
+         'Provider layer (real OpenSSL/GnuTLS sign-verify units over primitive stubs): a primitive is consulted only with a key of the kind the '
+         'algorithm needs (EdDSA: Ed25519/Ed448 only; RS*/PS*: RSA; ES*: EC whose field size fits the algorithm).',
+         'recorded sizes >= 2^31 bits excluded (size_t -> int narrowing in the gate); bits == 8*len for oct items is proved by the import harness; '
+         'key kind at the provider layer is a symbolic tag of the stub key object'),
  'C10': ('Bounded model checking of generate with a symbolic configuration history, clock and callback: the token equals '
          'b64url(dump(H)).b64url(dump(P)).b64url(sig) by an independent encoder; H/P contents at dump time (alg forced, typ default, iat/nbf/exp '
          'injection and overriding, callback edits only in this token); builder unchanged; signing input exactly header.payload; public keys refused.',
